@@ -46,6 +46,10 @@ FreshGrp(dst) == CHOOSE g \in 1..4 : \A r \in Regs : (r # dst /\ live[r]) => grp
 Put4(dst, a, owner, g) == /\ reg' = [reg EXCEPT ![dst] = a] /\ live' = [live EXCEPT ![dst] = TRUE] /\ own' = [own EXCEPT ![dst] = owner]
                           /\ warm' = [warm EXCEPT ![dst] = FALSE] /\ grp' = [grp EXCEPT ![dst] = g]
 Alone(r) == \A q \in Regs : (q # r /\ live[q]) => grp[q] # grp[r]
+\* an in-place action on r may legitimately show through in the registers that alias r (slice views, shared Axis objects):
+\* the properties neither promise nor forbid it, so those registers leave the session (they are no longer observed)
+DropAliases(r) == /\ live' = [q \in Regs |-> live[q] /\ (q = r \/ grp[q] # grp[r])]
+                  /\ UNCHANGED <<own, grp, warm>>
 FullIdx(a) == [i \in 1..NDim(a) |-> IxAll]
 XPos(a) == DimPos(a, "x")
 Args(src, dst, k, l) == [src |-> src, dst |-> dst, k |-> k, l |-> l]
@@ -75,6 +79,15 @@ SortOp(src, dst) ==
          perm == SortedPerm(a.labs[p])
          r == Take(a, [i \in 1..NDim(a) |-> IF i = p THEN IxLi(Gather(a.labs[p], perm)) ELSE IxAll], "label", <<>>)
      IN Put4(dst, r.val, FALSE, grp[src]) /\ Record("sort_axis", Args(src, dst, "", <<>>))
+\* newaxis with values (a repeat) / broadcast onto a new leading dimension "n"
+RepeatOp(src, dst) ==
+  /\ Bound /\ live[src] /\ ~HasDim(reg[src], "n") /\ NDim(reg[src]) <= 2
+  /\ Put4(dst, NewAxis(reg[src], "n", 0, <<10, 12>>), FALSE, grp[src]) /\ Record("repeat", Args(src, dst, "", <<10, 12>>))
+SqueezeBack(src, dst) ==        \* take the first slice of the repeated dimension again
+  /\ Bound /\ live[src] /\ HasDim(reg[src], "n") /\ DimPos(reg[src], "n") = 1
+  /\ LET a == reg[src]
+         r == Take(a, [i \in 1..NDim(a) |-> IF i = 1 THEN IxSc(a.labs[1][1]) ELSE IxAll], "label", <<>>)
+     IN r.ok /\ Put4(dst, r.val, FALSE, grp[src]) /\ Record("first_of_n", Args(src, dst, "", <<>>))
 CopyOp(src, dst) == /\ Bound /\ live[src] /\ src # dst /\ Put4(dst, reg[src], TRUE, FreshGrp(dst)) /\ Record("copy", Args(src, dst, "", <<>>))
 \* through a Dataset: ds = Dataset(); ds['v'] = reg[src]; reg[dst] = ds['v']
 ViaDataset(src, dst) == /\ Bound /\ live[src] /\ Put4(dst, reg[src], FALSE, grp[src]) /\ Record("via_dataset", Args(src, dst, "", <<>>))
@@ -96,31 +109,31 @@ Query(kind, r1, r2) ==
 
 (* ---------- in-place operations, on owning registers only ---------- *)
 SetItem(r, form) ==
-  /\ Bound /\ live[r] /\ own[r] /\ Alone(r) /\ HasDim(reg[r], "x")
+  /\ Bound /\ live[r] /\ HasDim(reg[r], "x")
   /\ LET a == reg[r]  p == XPos(a)  L == a.labs[p]
          ix == IF form = "scalar" THEN IxSc(L[Len(L)]) ELSE IxLi(<<L[Len(L)], L[1]>>)
          res == Put(a, [i \in 1..NDim(a) |-> IF i = p THEN ix ELSE IxAll], "label", <<>>, [shape |-> <<>>, cells |-> <<950>>, kind |-> "f"])
-     IN res.ok /\ reg' = [reg EXCEPT ![r] = res.val] /\ UNCHANGED <<live, own, grp, warm>> /\ Record("setitem", Args(r, r, form, <<>>))
+     IN res.ok /\ reg' = [reg EXCEPT ![r] = res.val] /\ DropAliases(r) /\ Record("setitem", Args(r, r, form, <<>>))
 Relabel(r, form, new) ==      \* form: "all" (a.axes['x'][:] = new), "attr" (a.x = new), "one" (a.axes['x'][0] = new[1])
-  /\ Bound /\ live[r] /\ own[r] /\ Alone(r) /\ HasDim(reg[r], "x")
+  /\ Bound /\ live[r] /\ HasDim(reg[r], "x")
   /\ LET a == reg[r]  p == XPos(a)  L == a.labs[p]
          L2 == IF form = "one" THEN [L EXCEPT ![1] = new[1]] ELSE new
      IN /\ Len(L2) = Len(L) /\ NoDup(L2)
-        /\ reg' = [reg EXCEPT ![r].labs[p] = L2] /\ UNCHANGED <<live, own, grp, warm>> /\ Record("relabel", Args(r, r, form, new))
+        /\ reg' = [reg EXCEPT ![r].labs[p] = L2] /\ DropAliases(r) /\ Record("relabel", Args(r, r, form, new))
 RenameAxis(r) ==              \* a.axes['x'].name = 'w' / a.dims = (...)
-  /\ Bound /\ live[r] /\ own[r] /\ Alone(r) /\ HasDim(reg[r], "x") /\ ~HasDim(reg[r], "w")
-  /\ reg' = [reg EXCEPT ![r].dims[XPos(reg[r])] = "w"] /\ UNCHANGED <<live, own, grp, warm>> /\ Record("rename", Args(r, r, "x>w", <<>>))
+  /\ Bound /\ live[r] /\ HasDim(reg[r], "x") /\ ~HasDim(reg[r], "w")
+  /\ reg' = [reg EXCEPT ![r].dims[XPos(reg[r])] = "w"] /\ DropAliases(r) /\ Record("rename", Args(r, r, "x>w", <<>>))
 RenameBack(r) ==
-  /\ Bound /\ live[r] /\ own[r] /\ Alone(r) /\ HasDim(reg[r], "w") /\ ~HasDim(reg[r], "x")
-  /\ reg' = [reg EXCEPT ![r].dims[DimPos(reg[r], "w")] = "x"] /\ UNCHANGED <<live, own, grp, warm>> /\ Record("rename", Args(r, r, "w>x", <<>>))
+  /\ Bound /\ live[r] /\ HasDim(reg[r], "w") /\ ~HasDim(reg[r], "x")
+  /\ reg' = [reg EXCEPT ![r].dims[DimPos(reg[r], "w")] = "x"] /\ DropAliases(r) /\ Record("rename", Args(r, r, "w>x", <<>>))
 SetAttr(r) ==                 \* a.attrs['mut'].append(..) and a.units = ..  : metadata id becomes 9
-  /\ Bound /\ live[r] /\ own[r] /\ Alone(r) /\ reg[r].attrs # 9
-  /\ reg' = [reg EXCEPT ![r].attrs = 9] /\ UNCHANGED <<live, own, grp, warm>> /\ Record("setattr", Args(r, r, "", <<>>))
+  /\ Bound /\ live[r] /\ reg[r].attrs # 9
+  /\ reg' = [reg EXCEPT ![r].attrs = 9] /\ DropAliases(r) /\ Record("setattr", Args(r, r, "", <<>>))
 
 NewLabs == {<<6, 4, 2>>, <<4, 2, 6>>, <<2, 4, 8>>, <<8, 6>>, <<6, 2>>, <<8, 2, 4>>}
 NextAll ==
   \/ \E s \in Regs : \E d \in Regs : \E f \in {"list", "unsorted", "slice", "scalar"} : Index(s, d, f)
-  \/ \E s \in Regs : \E d \in Regs : TransposeOp(s, d) \/ SortOp(s, d) \/ CopyOp(s, d) \/ ViaDataset(s, d)
+  \/ \E s \in Regs : \E d \in Regs : TransposeOp(s, d) \/ SortOp(s, d) \/ CopyOp(s, d) \/ ViaDataset(s, d) \/ RepeatOp(s, d) \/ SqueezeBack(s, d)
   \/ \E s \in Regs : \E d \in Regs : \E new \in NewLabs : ReindexOp(s, d, new)
   \/ \E a \in Regs : \E b \in Regs : \E j \in {"outer", "inner"} : AlignSorted(a, b, j)
   \/ \E a \in Regs : \E b \in Regs : \E k \in {"add", "align", "stack_align", "concat_align", "is_monotonic", "label_slice", "sum", "flatten", "repr"} : Query(k, a, b)
@@ -151,9 +164,10 @@ OperandsUnchanged ==
        \A r \in Regs : (reg'[r] # reg[r] \/ live'[r] # live[r]) =>
           \/ r = e.args.dst
           \/ (e.act = "align_sorted" /\ r = e.args.src)
-          \/ (e.act \in InPlaceActs /\ r = e.args.src)]_allvars
+          \/ (e.act \in InPlaceActs /\ grp[r] = grp[e.args.src])]_allvars
 \* copies are independent: an in-place action on one register changes that register only
 CopyIndependent ==
   [][LET e == hist'[Len(hist')] IN
-     (Len(hist') > Len(hist) /\ e.act \in InPlaceActs) => \A r \in Regs : r # e.args.src => reg'[r] = reg[r]]_allvars
+     (Len(hist') > Len(hist) /\ e.act \in InPlaceActs) =>
+        \A r \in Regs : grp[r] # grp[e.args.src] => (reg'[r] = reg[r] /\ live'[r] = live[r])]_allvars
 =============================================================================
